@@ -606,8 +606,12 @@ func WatchScenario(t *Tape) *Scenario {
 // height must be decided by consensus.
 func SyncScenario(t *Tape) *Scenario {
 	sc := baseScenario(t, "sync", 1, 10)
-	if os.Getenv("VERIF_EXP_SYNC_EPOCHS") != "" {
+	epochs := false
+	if os.Getenv("VERIF_EXP_SYNC_EPOCHS") != "" || t.Chance(SScen, 1, 3) {
+		// the validator set changes between heights: nodes move between observer and validator
+		// (a fault-free run all the same).  These runs have no slow application (see below).
 		addEpochs(t, sc)
+		epochs = len(sc.Epochs) > 1
 	}
 	sc.Heights = int(t.Range(SScen, 3, 8))
 	sc.GST = 0
@@ -630,6 +634,16 @@ func SyncScenario(t *Tape) *Scenario {
 	}
 	if t.Chance(SScen, 1, 3) {
 		sc.NObs = int(t.Range(SScen, 1, 2))
+	}
+	if epochs && os.Getenv("VERIF_EXP_SYNC_EPOCHS") == "" {
+		// A slow application delays the block it is needed for; a validator that was an observer
+		// at that height has no previous-proposal time to shorten its first timer by, so it
+		// proposes a full T after its Reset while the backups' timers are already shortened:
+		// that is application slowness, not message order, so these runs have prompt Resets.
+		sc.SlowNode = 0
+		if sc.ResetDelay > sc.Delta {
+			sc.ResetDelay = sc.Delta
+		}
 	}
 	sc.MaxEvents = 60000
 	return sc
